@@ -211,26 +211,26 @@ func (v *vocab) randLo(rng *rand.Rand) storage.LookupOptions {
 	case 9:
 		lo.MaxElements = -1
 	}
-	switch rng.Intn(8) {
-	case 0, 1, 2, 3:
+	switch rng.Intn(12) {
+	case 0, 1, 2, 3, 4, 5, 6, 7:
 		lo.Offset = 0
-	case 4, 5:
+	case 8, 9:
 		lo.Offset = 1
-	case 6:
+	case 10:
 		lo.Offset = 2
-	case 7:
+	case 11:
 		lo.Offset = -1 + 4*rng.Intn(2)
 	}
-	if rng.Intn(4) == 0 {
-		lo.LowerAnchor = v.anchors[rng.Intn(len(v.anchors))]
+	if rng.Intn(6) == 0 {
+		lo.LowerAnchor = v.anchors[rng.Intn(3)]
 	}
-	if rng.Intn(4) == 0 {
-		lo.UpperAnchor = v.anchors[rng.Intn(len(v.anchors))]
+	if rng.Intn(6) == 0 {
+		lo.UpperAnchor = v.anchors[2+rng.Intn(len(v.anchors)-2)]
 	}
-	if rng.Intn(7) == 0 {
+	if rng.Intn(8) == 0 {
 		lo.LatestAnchor = true
 	}
-	if rng.Intn(4) == 0 && (!lo.LatestAnchor || rng.Intn(4) == 0) {
+	if rng.Intn(5) == 0 && (!lo.LatestAnchor || rng.Intn(4) == 0) {
 		f := *v.filters[rng.Intn(len(v.filters))]
 		lo.FilterOptions = &f
 	}
@@ -244,16 +244,16 @@ func (v *vocab) randQuery(rng *rand.Rand, present []*triple.Triple) *Query {
 		q.Op = "Triples"
 	}
 	var t *triple.Triple
-	if len(present) > 0 && rng.Intn(6) != 0 {
+	if len(present) > 0 && rng.Intn(10) != 0 {
 		t = present[rng.Intn(len(present))]
 	} else {
 		t = v.triples[rng.Intn(len(v.triples))]
 	}
 	q.S, q.P, q.O, q.T = t.Subject(), t.Predicate(), t.Object(), t
-	if rng.Intn(8) == 0 {
+	if rng.Intn(12) == 0 {
 		q.P = v.preds[rng.Intn(len(v.preds))]
 	}
-	if rng.Intn(8) == 0 {
+	if rng.Intn(12) == 0 {
 		q.O = v.objs[rng.Intn(len(v.objs))]
 	}
 	q.Lo = v.randLo(rng)
@@ -470,9 +470,9 @@ func genSeq(id int, seed int64, faults bool) SeqCase {
 			h := rng.Intn(len(handles))
 			var q *Query
 			switch x := rng.Intn(10); {
-			case len(pool) > 0 && x < 4:
+			case len(pool) > 0 && x < 5:
 				q = pool[rng.Intn(len(pool))] // repeat: cache hit candidates
-			case len(pool) > 0 && x < 6:
+			case len(pool) > 0 && x < 7:
 				q = variant(rng, pool[rng.Intn(len(pool))])
 				pool = append(pool, q)
 			default:
